@@ -9,6 +9,7 @@ pub mod c06;
 pub mod c07;
 pub mod c08;
 pub mod c09;
+pub mod c10;
 pub mod c11;
 pub mod c14;
 pub mod c16;
@@ -18,7 +19,7 @@ pub mod c19;
 pub mod c20;
 pub mod tzchild;
 
-pub const ALL: &[&str] = &["C01", "C02", "C03", "C04", "C05", "C06", "C07", "C08", "C09", "C11", "C14", "C16", "C17", "C18", "C19", "C20"];
+pub const ALL: &[&str] = &["C01", "C02", "C03", "C04", "C05", "C06", "C07", "C08", "C09", "C10", "C11", "C14", "C16", "C17", "C18", "C19", "C20"];
 
 pub fn run(ctx: &Ctx) -> Option<Outcome> {
     match ctx.prop.as_str() {
@@ -31,6 +32,7 @@ pub fn run(ctx: &Ctx) -> Option<Outcome> {
         "C07" => Some(c07::run(ctx)),
         "C08" => Some(c08::run(ctx)),
         "C09" => Some(c09::run(ctx)),
+        "C10" => Some(c10::run(ctx)),
         "C11" => Some(c11::run(ctx)),
         "C14" => Some(c14::run(ctx)),
         "C16" => Some(c16::run(ctx)),
